@@ -17,7 +17,8 @@ RULE = ("auth (L1): the real handlers obtained from the app's MsgServiceRouter (
         "Chain id is a dimension: worlds 0 and 2 run under chain id sifchain-1 (main net), world 1 under one of sifchain-testnet-1, \"\", foochainid, sifchain-devnet-1 (L1: the context's chain id; L2: block header and sign doc). "
         "Accounts: the 14 matrix accounts plus every address of x/admin/types ProdAdminAccounts()/InitialAdminAccounts(), read at run time (5 on this tree); at L2 nobody has their keys, their messages are run through app.Simulate with a forged signature. "
         "Three worlds per run and family (a `reset` line between them): (2) sparse: ADMIN for two accounts, ETHBRIDGE only for a compiled-in address, NO stored holder for any other role - full matrix (L1) / all compiled-in addresses x all handlers (L2), "
-        "then the last ETHBRIDGE holder is removed and tries again; (0) every role store populated, (1) the single-value admin field EMPTY (oracle admin_address \"\", as in the default oracle genesis; no message can "
+        "then the last ETHBRIDGE holder is removed and tries again; the world ends with an ADMIN endgame: the current ADMIN holders are removed one by one by the one standing last (each removed account's very next "
+        "message is sent), the last retires itself and then tries SetParams / AddAccount(ADMIN, itself) / RemoveAccount, every former holder tries once more; (0) every role store populated, (1) the single-value admin field EMPTY (oracle admin_address \"\", as in the default oracle genesis; no message can "
         "set it) and a clp whitelist listing only a stranger (the clp genesis refuses an empty one) - in world 1 both families run the full matrix handler x 14 accounts, so every role holder tries the messages of every other role. "
         "Margin world (both worlds, both families; set-up through keepers and the real Open/Swap handlers): pool xxx 1e26/1e26 enabled for margin, safety factor 1.05, a trader's two 2x LONG positions, a whale swap that more than halves the "
         "price - both positions unhealthy, so MsgForceClose (position 1) and MsgAdminClose (position 2) SUCCEED for a MARGIN holder and the guard is the only thing that refuses. L1: epoch length 10, height 13; all 14 accounts probe both "
